@@ -17,21 +17,21 @@ MC_Dev == {tlc.tla_value(set(dev)) if dev else '{}'}
 """
 
 
-def mc_cfg(maxcalls, emit, invariants, view="ViewLean"):
+def mc_cfg(maxcalls, emit, invariants, view="ViewLean", ckpt=False):
     return (f"SPECIFICATION Spec\nCONSTANTS Cfg <- MC_Cfg\n MaxCalls = {maxcalls}\n FaultKinds <- MC_Faults\n"
-            f" HyperMoves <- MC_Moves\n Deviations <- MC_Dev\n Emit = {'TRUE' if emit else 'FALSE'}\n"
+            f" HyperMoves <- MC_Moves\n Deviations <- MC_Dev\n Emit = {'TRUE' if emit else 'FALSE'}\n Ckpt = {'TRUE' if ckpt else 'FALSE'}\n"
             + (f"VIEW {view}\n" if view else "") + "CHECK_DEADLOCK FALSE\n" + "".join(f"INVARIANT {i}\n" for i in invariants))
 
 
-def check(cfg_groups, maxcalls, faults=(), moves=(), dev=(), invariants=("NoViolation", "TypeOK"), timeout=1800, tag="opt-mc"):
-    return tlc.run("MC_Opt", mc_module(cfg_groups, faults, moves, dev), mc_cfg(maxcalls, False, invariants),
+def check(cfg_groups, maxcalls, faults=(), moves=(), dev=(), invariants=("NoViolation", "TypeOK"), timeout=1800, tag="opt-mc", ckpt=False):
+    return tlc.run("MC_Opt", mc_module(cfg_groups, faults, moves, dev), mc_cfg(maxcalls, False, invariants, ckpt=ckpt),
                    tag=tag, timeout=timeout, memqueue=True, keep=False)
 
 
-def simulate(cfg_groups, maxcalls, num, seed, faults=(), moves=(), dev=(), timeout=600, tag="opt-sim"):
+def simulate(cfg_groups, maxcalls, num, seed, faults=(), moves=(), dev=(), timeout=600, tag="opt-sim", ckpt=False):
     """N random behaviours of exactly `maxcalls` actions each, as lists of events (dicts)."""
     res = tlc.run("MC_Opt", mc_module(cfg_groups, faults, moves, dev),
-                  mc_cfg(maxcalls, True, ("EmitInv", "NoViolation"), view=None),
+                  mc_cfg(maxcalls, True, ("EmitInv", "NoViolation"), view=None, ckpt=ckpt),
                   tag=tag, timeout=timeout, simulate=f"num={num}", depth=maxcalls + 2, seed=seed, workers=1)
     behs = []
     seen = set()
@@ -96,18 +96,18 @@ def inputs_only(beh):
     """Strip a behaviour to its inputs (for re-evaluation by TLC)."""
     out = []
     for ev in beh:
-        if ev["ev"] == "SetHyper":
+        if ev["ev"] != "Step":
             out.append(dict(ev))
         else:
             out.append({"ev": "Step", "present": ev["present"], "outc": ev["outc"], "obs": [{"has": False} for _ in ev["present"]]})
     return out
 
 
-def enumerate_all(cfg_groups, depth, faults=(), moves=(), dev=(), timeout=900, tag="opt-enum"):
+def enumerate_all(cfg_groups, depth, faults=(), moves=(), dev=(), timeout=900, tag="opt-enum", ckpt=False):
     """EVERY behaviour of exactly `depth` actions (bounded-exhaustive conformance): model checking with the history
     variable in the fingerprint makes the state graph the tree of behaviours; each leaf prints its history."""
     res = tlc.run("MC_Opt", mc_module(cfg_groups, faults, moves, dev),
-                  mc_cfg(depth, True, ("EmitInv", "NoViolation"), view=None), tag=tag, timeout=timeout, workers=16, memqueue=True)
+                  mc_cfg(depth, True, ("EmitInv", "NoViolation"), view=None, ckpt=ckpt), tag=tag, timeout=timeout, workers=16, memqueue=True)
     behs, seen = [], set()
     for p in res.printed:
         if not p.startswith('<<"BEH"'):
